@@ -12,7 +12,7 @@ from gentree import VERIF, WORK, TREE
 
 LOGS = os.path.join(WORK, "logs")
 TOTAL_MEM_GB = int(os.environ.get("VERIF_MEM_GB", "52"))
-MAX_WORKERS = int(os.environ.get("VERIF_WORKERS", "6"))
+MAX_WORKERS = int(os.environ.get("VERIF_WORKERS", "7"))
 WORKER_BASE = int(os.environ.get("VERIF_WORKER_BASE", "0"))
 
 
